@@ -877,3 +877,20 @@ def replay(ctx, path):
     w = c_fails(cbin, case)
     print("failure:", w, crashes)
     return 1 if w else 0
+
+
+META = {
+    "text": "Rocq theorems for EVERY binary tree with distinct node ids (a superset of all AVL/red-black reachable shapes) "
+            "represented in a parent-linked heap: in-order foreach = inorder list, reverse = its reverse, ascending/descending "
+            "keys on any search tree, next/prev mutually inverse, the four pre/post loops yield exactly root-left-right, "
+            "root-right-left, left-right-root, right-left-root, iteration from any node yields the rest of its order, every "
+            "order visits each element exactly once, fortear hands out postorder (children before parents) without ever "
+            "reading a freed node (a read of a removed id is a stuck model), leaves the tree empty, and after ANY k steps the "
+            "remaining heap is again a tree holding exactly the rest. Tie: extracted model vs the real iterator macros on "
+            "real AVL and RB trees plus hand-linked shapes, ASan with free() in tear.",
+    "note": "Trusted: Coq kernel; extraction (ExtrOcamlBasic only) + drivers; the navigation functions are a hand "
+            "transcription run on the shape dumped from the C (differential testing on all shapes <= 7 (thorough 10) nodes, "
+            "all insertion orders of <= 6 (7) keys, large directed and random shapes); 'the C reads nothing freed' is observed "
+            "by ASan, proved of the model only; removing a node from the model heap stands for the caller's free(). No axioms.",
+    "technique": "Rocq proof (zipper contexts over a heap representation predicate, structural induction) + extracted-model vs C iterator-sequence correspondence",
+}
